@@ -194,6 +194,9 @@ pub fn decorate(rng: &mut Rng, sc: &mut Scenario) {
     }
     for st in sc.steps.iter_mut() {
         match st {
+            // (chrono represents a leap second as second 59 with 1e9 <= nanos < 2e9; only where the context
+            // zone's offset is a whole number of minutes, so that the wall clock is in second 59 as well)
+            Step::Goto { utc, nanos } if *utc % 60 == 59 && rng.chance(1, 3) && sc.jump.map_or(true, |(_, b, a)| b % 60 == 0 && a % 60 == 0) && !sc.zone.starts_with("fixed:") => *nanos = 1_000_000_000 + rng.below(1_000_000_000) as u32,
             Step::Goto { nanos, .. } if *nanos != 0 && rng.chance(1, 2) => *nanos = rng.below(1_000_000_000) as u32,
             // (long streams only without a bound: with it the two evaluations give up at different wall-clock dates)
             Step::Observe { window, take } if sc.bound_days.is_none() && rng.chance(1, 60) => {
@@ -225,7 +228,7 @@ pub fn scenario_around(rng: &mut Rng, tz: Tz, j: Jump) -> Scenario {
     let mut steps = vec![observe(rng, size)];
     for _ in 0..n_events {
         let s = match rng.below(14) {
-            0 => Step::Goto { utc: j.at - rng.range(1, 60), nanos: 0 },
+            0 => Step::Goto { utc: if rng.chance(1, 4) { j.at - 1 - 60 * rng.range(0, 3) } else { j.at - rng.range(1, 60) }, nanos: 0 },
             1 => Step::Goto { utc: j.at, nanos: 0 },
             2 => Step::Goto { utc: j.at + 1, nanos: 0 },
             3 => Step::Goto { utc: j.at - 1, nanos: *rng.pick(&[0, 500_000_000, 999_999_999]) },
@@ -234,7 +237,16 @@ pub fn scenario_around(rng: &mut Rng, tz: Tz, j: Jump) -> Scenario {
             6 => Step::Goto { utc: j.at - size + rng.range(-30, 30), nanos: 0 },
             7 | 8 => Step::FollowNextChange,
             9 | 10 => Step::Between(rng.below(1000) as u32),
-            11 => Step::Advance(rng.range(1, 120)),
+            11 => {
+                if rng.chance(1, 2) {
+                    // the public mapping called directly for a wall-clock time in or next to the skipped / repeated window
+                    let inside = ws + rng.range(0, size.max(1));
+                    let l = *rng.pick(&[ws - 1, ws, ws + 1, ws + size / 2, we - 1, we, we + 1, inside]);
+                    Step::Map { local: l, nanos: *rng.pick(&[0, 0, 1, 250_000, 999_999_999]) }
+                } else {
+                    Step::Advance(rng.range(1, 120))
+                }
+            }
             12 => Step::Advance(rng.range(60, 7200)),
             _ => Step::Goto { utc: j.at + rng.range(-size, size), nanos: 0 },
         };
